@@ -58,7 +58,7 @@ struct Replay {
     source: String,
 }
 
-const NFORMS: u8 = 12;
+const NFORMS: u8 = 15;
 
 fn node_strategy(depth: u32, width: usize) -> BoxedStrategy<NodeLit> {
     let leaf = (0..NFORMS, any::<bool>(), any::<bool>()).prop_map(|(form, empty_braces, trailing)| NodeLit { form, empty_braces: empty_braces && form % 3 == 0, trailing, kids: vec![] });
@@ -84,6 +84,36 @@ fn lit_strategy(depth: u32, width: usize) -> BoxedStrategy<Lit> {
             delim,
             filler,
             kids,
+        })
+        .boxed()
+}
+
+/// "spine" literals: one long nesting (12 … 40 levels) with a following sibling at a generated subset
+/// of levels — after the deepest node the expansion has to climb back in several stages
+fn spine_strategy() -> BoxedStrategy<Lit> {
+    (
+        proptest::collection::vec((0..NFORMS, proptest::bool::weighted(0.3), any::<bool>(), 0..NFORMS), 12..=40),
+        (0u8..4, prop_oneof![3 => Just(None), 1 => (0u8..3).prop_map(Some)], 0u8..6, any::<bool>(), 0u8..3),
+    )
+        .prop_map(|(levels, (arena_form, root_existing, root_form, trailing_outer, delim))| {
+            let mut cur: Option<NodeLit> = None;
+            let mut sib_after_cur = false;
+            let mut sib_form = 0;
+            for (form, sib, trailing, sform) in levels.into_iter().rev() {
+                let mut kids = Vec::new();
+                if let Some(c) = cur.take() {
+                    kids.push(c);
+                    if sib_after_cur {
+                        kids.push(NodeLit { form: sib_form, empty_braces: false, trailing: false, kids: vec![] });
+                    }
+                }
+                cur = Some(NodeLit { form, empty_braces: false, trailing, kids });
+                sib_after_cur = sib;
+                sib_form = sform;
+            }
+            let mut kids = vec![cur.unwrap()];
+            kids.push(NodeLit { form: 0, empty_braces: false, trailing: false, kids: vec![] });
+            Lit { arena_form, root_existing, root_form, arrow: true, trailing_inner: false, trailing_outer, delim, filler: 0, kids }
         })
         .boxed()
 }
@@ -149,7 +179,11 @@ fn expr(form: u8, k: u32) -> String {
         8 => format!("{{ let v = {e}; v }}"),
         9 => format!("std::convert::identity::<u32>({e})"),
         10 => format!("loop {{ break {e}; }}"),
-        _ => format!("(|| {e})()"),
+        11 => format!("(|| {e})()"),
+        // expressions that contain commas of their own
+        12 => format!("std::cmp::max({e}, 0)"),
+        13 => format!("({e}, 0u8).0"),
+        _ => format!("[0, {e}][1]"),
     }
 }
 
@@ -582,7 +616,7 @@ fn run(args: &[String], seed: u64) -> i32 {
         ch.copy_from_slice(&s.to_le_bytes());
     }
     let mut runner = TestRunner::new_with_rng(Config { cases: 1, failure_persistence: None, ..Config::default() }, TestRng::from_seed(RngAlgorithm::ChaCha, &sb));
-    let strat = lit_strategy(depth, width);
+    let strat = prop_oneof![9 => lit_strategy(depth, width), 1 => spine_strategy()].boxed();
     let mut all: Vec<Vec<(String, Lit)>> = Vec::new();
     // replay tier: regression literals go first
     let mut regress: Vec<(String, Lit)> = Vec::new();
